@@ -170,6 +170,11 @@ Proof. exact judge_assign_sound. Qed.
 Print Assumptions C04_judge_line_sound.
 
 (* ---- E. known findings: the faithful model of mech violates the property on these classes ---- *)
+(* [refutes id w] speaks about the model of the tree BEFORE the repairs (fx = false).  Three of the classes
+   (opassign-scalar-index-overwrites, mask-rows-all-off-by-one, div-assign-rows-all-divides-every-element)
+   have since been repaired in /repo by `fix:` commits 8f97ba0, 7b872ae, 3989fe2 (the fx = true model);
+   they are no longer listed as open findings, so a (kf ...) verdict with one of these ids is a VIOLATION
+   again, i.e. the check now guards the repairs against regression. *)
 Theorem C04_refuted_opassign_scalar_index : exists w, refutes id_opassign_scalar w.
 Proof. exact (ex_intro _ _ refuted_opassign_scalar). Qed.
 Print Assumptions C04_refuted_opassign_scalar_index.
